@@ -193,9 +193,15 @@ def run_one(module, arm, desc, listed):
     return 'violation', v
 
 
-def _make_body(module, arm, listed, stats, state, excluded, t0, budget, shrink_budget):
+def _make_body(module, arm, listed, stats, state, excluded, t0, budget, shrink_budget,
+               skip_first=False):
   def body(desc):
     now = time.time()
+    state['count'] += 1
+    if skip_first and state['count'] == 1:
+      # Hypothesis starts every run with the minimal example, which is the same in every
+      # shard: only shard 0 evaluates it.
+      return
     if state['fail'] is None and now - t0 > budget:
       stats.unexplored += 1
       return
@@ -247,10 +253,11 @@ def _hypothesis_shard(module, arm, tier, seed, shard, nshards, listed, max_round
   t0 = time.time()
   for rnd in range(max_rounds):
     state = {'fail': None, 't_fail': None, 'count': 0}
-    body = _make_body(module, arm, listed, stats, state, excluded, t0, budget, shrink_budget)
+    body = _make_body(module, arm, listed, stats, state, excluded, t0, budget, shrink_budget,
+                      skip_first=(shard > 0 or rnd > 0))
     test = given(strategy)(body)
     test = settings(
-        max_examples=n, database=None, deadline=None,
+        max_examples=n + (1 if (shard > 0 or rnd > 0) else 0), database=None, deadline=None,
         report_multiple_bugs=False, derandomize=False,
         suppress_health_check=list(HealthCheck),
         phases=[Phase.generate, Phase.shrink])(test)
